@@ -32,6 +32,10 @@ def do_send(sc, t, np, frames, reply_from=None):
 
 def cases(tier, rng):
     out = gen.corpus(ID)
+    # safety net: seeded random schedules of these socket types over scripted pipes (partial reads, back-pressure,
+    # errors, futures polled once or twice and then ABANDONED, sockets dropped) — every line predicted by the World model
+    for i in range(150 if tier == "quick" else 3000):
+        out.append(wg.random_case(rng, f"random-world#{i}", ["PUSH", "DEALER", "REQ"], tags=("random-world",)))
     n = 0
     for t in PEER:
         for np0 in range(0, 6):
